@@ -4,7 +4,7 @@ patch="$1"; shift
 cd /repo || exit 2
 git diff --quiet || { echo "/repo has uncommitted changes"; exit 2; }
 git apply "$patch" || exit 2
-trap 'git -C /repo checkout -- . ; git -C /repo clean -fdq' EXIT
+trap 'git -C /repo checkout -- . ; git -C /repo clean -fdq; find /verif/replays -type f ! -name .gitkeep -delete' EXIT
 if ! (cd /repo && GOFLAGS=-mod=mod go build ./... 2>&1 | tail -5); then echo "BUILD FAILED"; fi
 if [ -z "$SKIP_BASELINE" ]; then /verif/bin/baseline.sh | head -3; fi
 for p in "$@"; do
